@@ -19,6 +19,9 @@ func DrawDAG(r *rng.R) *Entry {
 	m := &mb.Model{Opset: 13}
 	e := &Entry{Name: "dag", Model: m, Sensitive: false}
 	nin := r.Range(1, 2)
+	if r.Chance(1, 40) {
+		nin = []int{33, 65, 70, 130}[r.Intn(4)] // wide signatures: per-input tables, bit sets over inputs
+	}
 	vals := []string{}
 	for i := 0; i < nin; i++ {
 		nm := fmt.Sprintf("x%d", i)
@@ -35,6 +38,8 @@ func DrawDAG(r *rng.R) *Entry {
 	nn := r.Range(2, 6)
 	if r.Chance(1, 40) {
 		nn = []int{33, 65, 70, 130, 260}[r.Intn(5)] // long graphs: node-indexed tables, bit sets, per-node caches
+	} else if r.Chance(1, 40) {
+		nn = 0 // no nodes at all: every output is an input or a weight handed straight through
 	}
 	for i := 0; i < nn; i++ {
 		out := fmt.Sprintf("v%d", i)
@@ -108,7 +113,7 @@ func DrawDAG(r *rng.R) *Entry {
 		m.Nodes = append(m.Nodes, n)
 		vals = append(vals, out)
 	}
-	if r.Chance(1, 15) {
+	if len(m.Nodes) >= 2 && r.Chance(1, 15) {
 		// one node (never the first) carries an attribute its operator refuses: every Run fails there, after the
 		// nodes before it have run
 		k := r.Range(1, len(m.Nodes)-1)
@@ -127,6 +132,17 @@ func DrawDAG(r *rng.R) *Entry {
 	}
 	if nw > 0 && r.Chance(1, 6) {
 		m.Outputs = append(m.Outputs, mb.IO{Name: "w0", NoShape: true})
+	}
+	if nin > 30 || r.Chance(1, 30) {
+		// many outputs: every input and every fifth value
+		for i, v := range vals {
+			if i < nin || i%5 == 0 {
+				m.Outputs = append(m.Outputs, mb.IO{Name: v, NoShape: true})
+			}
+		}
+	}
+	if nn == 0 && nw == 0 && r.Bool() {
+		m.Outputs = append(m.Outputs, mb.IO{Name: newWeight([]int{1, 3}), NoShape: true})
 	}
 	b1 := r.Range(1, 3)
 	b2 := b1%3 + 1
